@@ -377,7 +377,9 @@ func ruleR07b(c *Check, rule string) {
 		if len(s.Common().Args) < 2 || !fwd.Has(s.Common().Args[0]) {
 			continue
 		}
-		if ok, _ := allowed(s.Parent()); ok {
+		// the owner may link one cache entry to another; a link whose destination lies outside the cache
+		// directory aliases the entry no matter who creates it (a backend method that "restores by hard link")
+		if ok, _ := allowed(s.Parent()); ok && fwd.Has(s.Common().Args[1]) {
 			continue
 		}
 		c.Bad(rule, "cache-entry-not-aliased/"+siteKey(c, s), "a path inside the cache directory is linked into the workspace: the restored file shares its storage with the cache entry, so a command that rewrites its output in place changes the blob stored under the old digest (later restores of that digest return the wrong bytes)", c.P.InstrPos(s))
